@@ -403,8 +403,23 @@ fn run_single_program(
                 }
             }
 
-            let mut stdout_redirected = false;
-            let mut stderr_redirected = false;
+            // capture output of last process if needed: the capture pipes
+            // become stdout / stderr BEFORE the command's own redirections,
+            // so that `> f`, `2>&1`, `1>&2` then act on them like on any
+            // other descriptor, left to right.
+            if idx_cmd == pipes_count && options.capture_output {
+                if let Some(fds) = fds_capture_stdout {
+                    libs::close(fds.0);
+                    libs::dup2(fds.1, 1);
+                    libs::close(fds.1);
+                }
+                if let Some(fds) = fds_capture_stderr {
+                    libs::close(fds.0);
+                    libs::dup2(fds.1, 2);
+                    libs::close(fds.1);
+                }
+            }
+
             for item in &cmd.redirects_to {
                 let from_ = &item.0;
                 let op_ = &item.1;
@@ -412,7 +427,7 @@ fn run_single_program(
                 if to_ == "&1" && from_ == "2" {
                     if idx_cmd < pipes_count {
                         libs::dup2(1, 2);
-                    } else if !options.capture_output {
+                    } else {
                         let fd = libs::dup(1);
                         if fd == -1 {
                             println_stderr!("cicada: dup error");
@@ -420,23 +435,15 @@ fn run_single_program(
                         }
                         libs::dup2(fd, 2);
                         libs::close(fd);
-                    } else {
-                        // note: capture output with redirections does not
-                        // make much sense
                     }
                 } else if to_ == "&2" && from_ == "1" {
-                    if idx_cmd < pipes_count || !options.capture_output {
-                        let fd = libs::dup(2);
-                        if fd == -1 {
-                            println_stderr!("cicada: dup error");
-                            process::exit(1);
-                        }
-                        libs::dup2(fd, 1);
-                        libs::close(fd);
-                    } else {
-                        // note: capture output with redirections does not
-                        // make much sense
+                    let fd = libs::dup(2);
+                    if fd == -1 {
+                        println_stderr!("cicada: dup error");
+                        process::exit(1);
                     }
+                    libs::dup2(fd, 1);
+                    libs::close(fd);
                 } else {
                     let append = op_ == ">>";
                     match tools::create_raw_fd_from_file(to_, append) {
@@ -448,10 +455,8 @@ fn run_single_program(
 
                             if from_ == "1" {
                                 libs::dup2(fd, 1);
-                                stdout_redirected = true;
                             } else {
                                 libs::dup2(fd, 2);
-                                stderr_redirected = true;
                             }
                         }
                         Err(e) => {
@@ -459,30 +464,6 @@ fn run_single_program(
                             process::exit(1);
                         }
                     }
-                }
-            }
-
-            // capture output of last process if needed.
-            if idx_cmd == pipes_count && options.capture_output {
-                if !stdout_redirected {
-                    if let Some(fds) = fds_capture_stdout {
-                        libs::close(fds.0);
-                        libs::dup2(fds.1, 1);
-                        libs::close(fds.1);
-                    }
-                } else if let Some(fds) = fds_capture_stdout {
-                    libs::close(fds.0);
-                    libs::close(fds.1);
-                }
-                if !stderr_redirected {
-                    if let Some(fds) = fds_capture_stderr {
-                        libs::close(fds.0);
-                        libs::dup2(fds.1, 2);
-                        libs::close(fds.1);
-                    }
-                } else if let Some(fds) = fds_capture_stderr {
-                    libs::close(fds.0);
-                    libs::close(fds.1);
                 }
             }
 
